@@ -4,7 +4,7 @@ operations sequence in Rust's evaluation order."""
 import re
 
 from r2c_parse import ParseError, INT_BITS, SINT_BITS, parse_expr_src, parse_type_tokens, parse_body_tokens, parse_params, lex, Parser
-from r2c_ir import Ret, Fail, ErrT, MonT, SetState, Bind, BindT, Let, If, Match, OBind, Fold, effectful, atom, inline, render, lpat
+from r2c_ir import Ret, Fail, ErrT, MonT, SetState, Catch, Bind, BindT, Let, If, Match, OBind, Fold, effectful, atom, inline, render, lpat
 
 MUTATING = {"pop", "push", "push_back", "pop_front", "insert", "remove", "clear", "entry", "truncate", "extend"}
 
@@ -47,6 +47,7 @@ def unify(a, b):
 class Sig:
     def __init__(self, coq, params, has_self, ret, eff, template=None, extra=()):
         self.coq, self.params, self.has_self, self.ret, self.eff, self.template = coq, params, has_self, ret, eff, template
+        self.flags = {}
         self.extra = list(extra)     # names of additional parameters every caller must itself have (e.g. an abstract digest)
 
 
@@ -60,6 +61,8 @@ class Ctx:
         self.allowed = list(allowed)
         self.retk = None
         self.in_loop = False
+        self.state_var = "self"     # the Rust name of the value that is the state of a state function
+        self.loop_k = None          # inside a `for` body: what `continue` does
         self.state = False          # translating a `&mut self` method of the state type in the state monad
         self.skipvars = set()       # locals bound to metrics handles (never translated)
         self.allowed_stmts = []
@@ -69,6 +72,8 @@ class Ctx:
         c = Ctx(self.what, self.self_type, self.ret, self.binds, self.allowed)
         c.in_loop = self.in_loop
         c.state = self.state
+        c.loop_k = self.loop_k
+        c.state_var = self.state_var
         c.skipvars = self.skipvars
         c.allowed_stmts = self.allowed_stmts
         c.anyhow = self.anyhow
@@ -82,9 +87,9 @@ class Ctx:
 def diverges(e):
     if e is None:
         return False
-    if e[0] == "return":
+    if e[0] in ("return", "continue"):
         return True
-    if e[0] == "macro" and e[1] in ("unreachable", "panic"):
+    if e[0] == "macro" and e[1] in ("unreachable", "panic", "bail"):
         return True
     if e[0] == "block":
         if e[2] is not None:
@@ -107,6 +112,25 @@ def has_value_return(e):
         return True
     if isinstance(e, (list, tuple)):
         return any(has_value_return(x) for x in e)
+    return False
+
+
+def has_escape(e):
+    """does the AST contain a `continue` or a `return` (a way to leave the enclosing statement sequence)?"""
+    if isinstance(e, tuple) and len(e) >= 1 and e[0] == "continue":
+        return True
+    if isinstance(e, tuple) and len(e) >= 2 and e[0] == "return" and not is_err_return(e):
+        return True            # `return Err(..)` needs no continuation: it is the monad's failure
+    if isinstance(e, (list, tuple)):
+        return any(has_escape(x) for x in e)
+    return False
+
+
+def has_any_return(e):
+    if isinstance(e, tuple) and len(e) >= 1 and e[0] == "return":
+        return True
+    if isinstance(e, (list, tuple)):
+        return any(has_any_return(x) for x in e)
     return False
 
 
@@ -310,6 +334,12 @@ class Translator:
         if hint is not None and self.dropped(hint):
             return k("tt", hint)         # an argument of a type the model has no counterpart for (e.g. ctx::Ctx) is not translated
         for b in ctx.binds:
+            if b.get("macro") and e[0] == "macro_opaque" and e[1] == b["macro"]:
+                import hashlib
+                h = hashlib.sha256(e[2].encode()).hexdigest()[:16]
+                if h != b["sha"]:
+                    self.err(ctx, f"the body of the {b['macro']}! block changed (token hash {h}, pinned {b['sha']})")
+                return k(b["coq"], b["type"])
             if e == b["ast"]:
                 if b.get("eff"):
                     t = self.fresh()
@@ -366,6 +396,30 @@ class Translator:
         return k(str(v), ("int", bits))
 
     def ex_await(self, e, ctx, k, hint, tail):
+        if e[1][0] == "async_block":
+            # async { .. }.await : the block runs to completion here; `?` inside it leaves the BLOCK with an Err, not the function
+            if ctx.state != "s":
+                self.err(ctx, "async blocks are translated only in plain state functions")
+            blk = e[1][1]
+            got = []
+
+            def kk(v, t):
+                got.append(t)
+                st = strip(t)
+                if st[0] == "hres":
+                    return MonT(v, h=True)
+                if st[0] == "result":
+                    if v.startswith("(Ok ") and v.endswith(")"):
+                        return Ret(v[4:-1])
+                    return MonT(v)
+                self.err(ctx, "an async block whose value is not a Result is outside the subset")
+            c2 = ctx.child()
+            c2.retk = None
+            sub = self.ex(blk, c2, kk, None, False)
+            rt = strip(got[0]) if got else ("hole", [None])
+            v = self.fresh()
+            val_t = ("result", rt[1], ("hole", [None])) if rt[0] in ("hres", "result") else rt
+            return Catch(v, sub, k(v, val_t))
         # sequential code: awaiting a future that is polled to completion is transparent
         return self.ex(e[1], ctx, k, hint, tail)
 
@@ -464,13 +518,13 @@ class Translator:
             expr = sig.template.format(*[atom(v) for v in vals])
         else:
             expr = " ".join([sig.coq] + (["chk"] if sig.eff else []) + [atom(v) for v in vals] + extra)
-        if sig.eff == "h" and not ctx.state:
+        if sig.eff in ("h", "s") and not ctx.state:
             self.err(ctx, f"call of {sig.coq or sig.template}, which acts on the replica state, outside a state function")
         if strip(sig.ret)[0] == "result":
-            if sig.eff == "h":
+            if sig.eff in ("h", "s"):
                 return k(atom(expr), ("hres", strip(sig.ret)[1]))
             return k(atom(expr), sig.ret)       # a pending computation: consumed by `?`, map_err or a return
-        if sig.eff == "h":
+        if sig.eff in ("h", "s"):
             t = self.fresh()
             return Bind(t, expr, k(t, sig.ret), h=True)
         if sig.eff:
@@ -509,12 +563,12 @@ class Translator:
             if ty in ("HashMap", "BTreeMap") and last == "new" and not args:
                 h = strip(hint) if hint else None
                 return k("[]", h if h and h[0] == "map" else ("map", ty, ("hole", [None]), ("hole", [None])))
-            if ty == "Box" and last == "new" and len(args) == 1:
+            if ty in ("Box", "Arc") and last == "new" and len(args) == 1:
                 return self.ex(args[0], ctx, k, hint)
             if ty == "BitVec" and last == "from_elem" and len(args) == 2:
                 return self.exs(args, ctx, lambda vs: k(f"(repeat {atom(vs[1][0])} (Z.to_nat {atom(vs[0][0])}))", ("list", ("bool",))),
                                 [("int", 64), ("bool",)])
-            if ty in ("Vec", "VecDeque") and last == "new" and not args:
+            if ty in ("Vec", "VecDeque", "HashSet", "BTreeSet") and last == "new" and not args:
                 h = strip(hint) if hint else None
                 return k("[]", h if h and h[0] == "list" else ("list", ("hole", [None])))
             if ty == "u16" and last == "from_le_bytes" and len(args) == 1:
@@ -609,12 +663,36 @@ class Translator:
                     self.err(ctx, f"method {t[1]}::{name} is neither translated nor in the callee table of this target")
                 if not sig.has_self:
                     self.err(ctx, f"{t[1]}::{name} is not a method")
+                if sig.flags.get("update") and sig.template and self.place(recv, ctx):
+                    writer = self.place(recv, ctx)
+
+                    def val_upd(vs):
+                        v = self.fresh()
+                        argv = [atom(x) for x, _ in vs]
+                        return Let(v, sig.template.format(r, *argv), writer("(" + sig.flags["update"].format(r, *argv) + ")", k(v, sig.ret)))
+                    return self.exs(args, ctx, val_upd, sig.params)
+                if sig.flags.get("update") or sig.flags.get("sets_state"):
+                    self.err(ctx, f"{t[1]}::{name} updates its receiver: only available as a statement on a place")
+                if sig.eff == "s" and self.place(recv, ctx) and not (recv == ("path", ["self"])):
+                    # a state method called on a `let mut` local: the local is replaced, the result is pending
+                    writer = self.place(recv, ctx)
+
+                    def call_s(vs):
+                        res = self.fresh()
+                        expr = " ".join([sig.coq, "chk", r] + [atom(v) for v, ps in zip([v for v, _ in vs], sig.params) if not self.dropped(ps)]
+                                        + [ctx.vars[x][0] for x in sig.extra])
+                        rt = strip(sig.ret)
+                        val_t = ("result", rt[1], rt[2]) if rt[0] == "result" else sig.ret
+                        pend = f"(snd {res})" if rt[0] == "result" else None
+                        body = writer(f"(fst {res})", k(pend, val_t) if pend else Bind(self.fresh(), f"(snd {res})", k("tt", sig.ret)))
+                        return Let(res, expr, body)
+                    return self.exs(args, ctx, call_s, sig.params)
                 return self.exs(args, ctx, lambda vs: self.emit_call(sig, [r] + [v for v, _ in vs], ctx, k), sig.params)
             if kind in ("result", "hres") and name == "wrap" and len(args) == 1:
                 return k(r, t)          # error::Wrap only decorates the error
             if kind in ("result", "hres") and name in ("expect", "unwrap"):
                 v = self.fresh()
-                return Bind(v, f"hexpect {r}" if kind == "hres" else f"rexpect {r}", k(v, t[1]), h=(kind == "hres"))
+                return Bind(v, f"{ctx.state or 'h'}expect {r}" if kind == "hres" else f"rexpect {r}", k(v, t[1]), h=(kind == "hres"))
             if kind == "result":
                 if name == "map_err" and len(args) == 1:
                     f, et = self.err_fun(args[0], ctx, [t[2]])
@@ -683,7 +761,10 @@ class Translator:
                         if s and s["kind"] == "newtype":
                             return k(r, ("option", ("named", nm)))
                         self.err(ctx, f"Option::map({'::'.join(a[1])}) is outside the subset")
-                    f, rt = self.closure(a, [t[1]], ctx)
+                    f, rt, eff = self.closure_m(a, [t[1]], ctx)
+                    if eff:
+                        v = self.fresh()
+                        return Bind(v, f"option_map_m {f} {r}", k(v, ("option", rt)))
                     return k(f"(option_map {f} {r})", ("option", rt))
                 self.err(ctx, f"Option method {name} is outside the subset")
             if kind in ("list", "map"):
@@ -833,6 +914,8 @@ class Translator:
 
     def ex_unary(self, e, ctx, k, hint, tail):
         op = e[1]
+        if op == "&mut":
+            self.err(ctx, "`&mut` expressions are outside the subset")
         if op in ("&", "*"):
             return self.ex(e[2], ctx, k, hint)
 
@@ -892,6 +975,16 @@ class Translator:
                     f = self.eqb(t, ctx)
                     r = f"({av} =? {bv})" if f == "Z.eqb" else f"({f} {av} {bv})"
                     return k(r if op == "==" else f"(negb {r})", ("bool",))
+                if op in ("<", ">", "<=", ">=") and a[0] == "tuple" and b[0] == "tuple" and len(a[1]) == 2 and len(b[1]) == 2:
+                    st = strip(t)
+                    if st[0] != "tuple" or not all(self.zlike(x) for x in st[1]):
+                        self.err(ctx, "lexicographic comparison of tuples whose components are not integers of the model")
+                    x1, x2, y1, y2 = f"(fst {av})", f"(snd {av})", f"(fst {bv})", f"(snd {bv})"
+                    if op in ("<", "<="):
+                        x1, x2, y1, y2 = y1, y2, x1, x2
+                    strict = op in ("<", ">")
+                    r = f"(({y1} <? {x1}) || (({x1} =? {y1}) && ({y2} {'<?' if strict else '<=?'} {x2})))"
+                    return k(r, ("bool",))
                 if op in ("<", ">", "<=", ">=") and strip(t)[0] == "option" and self.spec(strip(t)[1]) and self.spec(strip(t)[1]).get("ge"):
                     g = self.spec(strip(t)[1])["ge"]
                     self.derives(strip(t)[1], "PartialOrd", ctx)
@@ -1095,11 +1188,33 @@ class Translator:
             name = e[1][0]
             cq = ctx.vars[name][0]
             return lambda v, rest: Let(cq, v, rest)
-        if ctx.state and e[0] == "field" and e[1] == ("path", ["self"]):
-            sp = self.tget(ctx.self_type)
+        if ctx.state and e == ("path", [ctx.state_var]):
+            return lambda v, rest: SetState(v, rest)      # the state value itself (e.g. the map handed to a watch closure)
+        if ctx.state and e[0] == "field" and e[1] == ("path", [ctx.state_var]):
+            sp = self.spec(ctx.vars[ctx.state_var][1])
+            if sp and sp["kind"] == "newtype" and e[2] == "0":
+                return lambda v, rest: SetState(v, rest)
             st = sp.get("setters", {}).get(e[2]) if sp else None
             if st:
                 return lambda v, rest: SetState(st.format(s="s", v=atom(v)), rest)
+        if e[0] == "field" and e[1][0] == "field" and self.place(e[1], ctx):
+            # a field of a record that is itself a place: rebuild the record
+            probe = []
+            try:
+                self.ex(e[1], ctx, lambda m, mt: (probe.append((m, mt)), Ret("tt"))[1])
+            except ParseError:
+                probe = []
+            if probe:
+                sp = self.spec(probe[0][1])
+                st = sp.get("setters", {}).get(e[2]) if sp and sp["kind"] == "record" else None
+                if st:
+                    w1 = self.place(e[1], ctx)
+                    r1 = atom(probe[0][0])
+                    return lambda v, rest: w1(st.format(s=r1, v=atom(v)), rest)
+        if e[0] == "field" and e[2] == "0" and e[1][0] == "path" and len(e[1][1]) == 1 and e[1][1][0] in ctx.mut:
+            sp = self.spec(ctx.vars[e[1][1][0]][1])
+            if sp and sp["kind"] == "newtype":
+                return self.place(e[1], ctx)
         return None
 
     # ---- statements
@@ -1134,7 +1249,9 @@ class Translator:
 
             def got(v, t):
                 t = unify(ty, t) if ty is not None else t
-                if strip(t)[0] == "result":
+                init0 = init[1] if init[0] == "await" else init
+                bound = any(init0 == b.get("ast") or (b.get("macro") and init0[0] == "macro_opaque" and init0[1] == b["macro"]) for b in ctx.binds)
+                if strip(t)[0] == "result" and not bound and init0[0] != "async_block":
                     self.err(ctx, "a Result value bound by `let` (instead of `?`) is outside the subset")
                 if els is not None:
                     if ctx.nested:
@@ -1186,7 +1303,7 @@ class Translator:
             if name == "ensure" and len(args) >= 2:
                 code = self.anyhow_code(args[1], ctx)
                 return self.ex(args[0], ctx, lambda c, t: If(c, rest(), ErrT(code)), ("bool",))
-            if name == "bail" and len(args) == 1:
+            if name == "bail" and len(args) >= 1:
                 return ErrT(self.anyhow_code(args[0], ctx))
             if name in ("assert_eq", "assert_ne") and len(args) >= 2:
                 cmp = ("binary", "==" if name == "assert_eq" else "!=", args[0], args[1])
@@ -1198,6 +1315,55 @@ class Translator:
             return self.stmt_for(e, ctx, rest)
         if e[0] == "assign":
             return self.stmt_assign(e, ctx, rest)
+        if e[0] == "continue":
+            if ctx.loop_k is None:
+                self.err(ctx, "`continue` outside a translated loop body")
+            return ctx.loop_k()
+        if e[0] == "mcall" and self.place(e[1], ctx):
+            # a method that updates its receiver, given by the callee table (`update`: the new value of the receiver)
+            handled = []
+
+            def try_update(m, mt):
+                mt2 = strip(mt)
+                sig = self.need_fn(mt2[1], e[2]) if mt2[0] == "named" else None
+                if sig is not None and sig.flags.get("update"):
+                    handled.append(1)
+                    writer = self.place(e[1], ctx)
+                    return self.exs(e[3], ctx, lambda vs: writer("(" + sig.flags["update"].format(atom(m), *[atom(v) for v, _ in vs]) + ")", rest()),
+                                    sig.params)
+                if mt2[0] == "list" and e[2] == "clear" and not e[3]:
+                    handled.append(1)
+                    return self.place(e[1], ctx)("[]", rest())
+                if mt2[0] == "list" and e[2] == "retain" and len(e[3]) == 1:
+                    handled.append(1)
+                    f, _ = self.closure(e[3][0], [mt2[1]], ctx)
+                    return self.place(e[1], ctx)(f"(filter {f} {atom(m)})", rest())
+                if mt2[0] == "list" and e[2] in ("push", "push_back", "insert") and len(e[3]) == 1:
+                    handled.append(1)
+                    writer = self.place(e[1], ctx)
+                    return self.ex(e[3][0], ctx, lambda v, vt: (unify(mt2[1], vt), writer(
+                        f"({atom(m)} ++ [{v}])" if e[2] in ("push", "push_back") else f"({atom(v)} :: {atom(m)})", rest()))[1], mt2[1])
+                return None
+            probe = []
+            try:
+                self.ex(e[1], ctx, lambda m, mt: (probe.append((m, mt)), Ret("tt"))[1])
+            except ParseError:
+                probe = []
+            if probe:
+                r0 = try_update(*probe[0])
+                if r0 is not None:
+                    return r0
+        if e[0] == "mcall" and ctx.state:
+            sg = None
+            probe = []
+            try:
+                self.ex(e[1], ctx, lambda m, mt: (probe.append((m, mt)), Ret("tt"))[1])
+            except ParseError:
+                probe = []
+            if probe and strip(probe[0][1])[0] == "named":
+                sg = self.need_fn(strip(probe[0][1])[1], e[2])
+            if sg is not None and sg.flags.get("sets_state"):
+                return self.exs(e[3], ctx, lambda vs: SetState(vs[0][0], rest()), sg.params)
         if e[0] == "mcall" and e[2] in ("retain", "insert") and self.place(e[1], ctx) and not (
                 e[2] == "insert" and e[1][0] == "path"):
             writer = self.place(e[1], ctx)
@@ -1263,7 +1429,7 @@ class Translator:
                 return self.ex(cond[2], ctx, got_s)
             return self.ex(cond, ctx, lambda c, t: If(c, c_then(ctx.child()), c_else(ctx.child())), ("bool",))
         if dth or del_:
-            if ctx.nested and (has_value_return([th, el]) or strip(ctx.ret)[0] != "result"):
+            if ctx.nested and (has_value_return([th, el]) or (has_any_return([th, el]) and strip(ctx.ret)[0] != "result")):
                 self.err(ctx, "early `return` inside a nested value expression / loop is outside the subset")
 
             def side(blk, div):
@@ -1273,8 +1439,20 @@ class Translator:
                     return lambda c: self.ex(blk, c, ctx.retk, ctx.ret, True)
                 return lambda c: self.ex(blk, c, lambda v, t: rest())
             return build(side(th, dth), side(el, del_))
+        if has_escape(th) or has_escape(el):
+            # a branch may leave the sequence (continue / return) without always doing so: the statements that follow
+            # are continued inside each branch
+            if ctx.nested and (has_value_return([th, el]) or (has_any_return([th, el]) and strip(ctx.ret)[0] != "result")):
+                self.err(ctx, "early `return` inside a nested value expression / loop is outside the subset")
+
+            def seq(blk):
+                if blk is None:
+                    return lambda c: rest()
+                return lambda c: self.ex(blk, c, lambda v, t: rest())
+            return build(seq(th), seq(el))
         # no branch leaves the function: the statement can only update `let mut` locals
-        ms = sorted(n for n in mutated([th, el], set()) if n in ctx.mut)
+        mset = mutated([th, el], set())
+        ms = [n for n in ctx.vars if n in mset and n in ctx.mut]      # declaration order: stable under renaming of locals
         spat, sval = self.state_pat(ms, ctx)
 
         def side2(blk):
@@ -1290,22 +1468,29 @@ class Translator:
 
     def stmt_for(self, e, ctx, rest):
         p, it, body = e[1], e[2], e[3]
-        ms = sorted(n for n in mutated(body, set()) if n in ctx.mut)
+        mset = mutated(body, set())
+        ms = [n for n in ctx.vars if n in mset and n in ctx.mut]      # declaration order: stable under renaming of locals
 
         early = has_value_return(body)
-        if not ms and not early and strip(ctx.ret)[0] != "result":
+        if not ms and not early and strip(ctx.ret)[0] != "result" and not ctx.state:
             self.err(ctx, "`for` loop that neither updates a `let mut` local nor returns is outside the subset")
         if early and ctx.nested:
             self.err(ctx, "`for` loop with `return` inside a nested value expression is outside the subset")
 
         def got(l, t):
             t = strip(t)
+            sp = self.spec(t)
+            if sp and sp.get("iter"):
+                l = "(" + sp["iter"][0].format(atom(l)) + ")"
+                t = strip(parse_type_src(sp["iter"][1]))
             if t[0] == "list":
                 el = t[1]
             elif t[0] == "map":
                 el = ("tuple", [t[2], t[3]])
             else:
                 self.err(ctx, f"`for` over type {t} is outside the subset")
+            if early and ctx.state:
+                self.err(ctx, "`for` loop with a value `return` inside a state method is outside the subset")
             if early:
                 c = ctx.child(nested=False)
                 c.in_loop = True
@@ -1325,21 +1510,28 @@ class Translator:
                 c.vars[r] = (cq, ty)
                 c.mut.discard(r)
             spat, sval = self.state_pat(ms, ctx)
+            c.loop_k = lambda: Ret(self.state_pat(ms, c)[1])
             bt = self.ex(body, c, lambda v, _t: Ret(self.state_pat(ms, c)[1]))
+            if ctx.state == "h":
+                self.err(ctx, "`for` loops in a method of the replica state machine are outside the subset")
             return Fold(spat, ps, bt, l, sval, rest())
         return self.ex(it, ctx, got)
 
     def stmt_assign(self, e, ctx, rest):
         op, lhs, rhs = e[1], e[2], e[3]
-        if ctx.state and lhs[0] == "field" and lhs[1] == ("path", ["self"]):
-            sp = self.tget(ctx.self_type)
+        if ctx.state and lhs[0] == "field" and lhs[1][0] == "field" and self.place(lhs, ctx) and op == "=":
+            writer = self.place(lhs, ctx)
+            return self.ex(rhs, ctx, lambda v, vt: writer(v, rest()))
+        if ctx.state and lhs[0] == "field" and lhs[1] == ("path", [ctx.state_var]):
+            sp = self.spec(ctx.vars[ctx.state_var][1])
             if lhs[2] in sp.get("ignored_assign", []):
                 return rest()        # a field the model does not have (timers): the assignment is not translated
             writer = self.place(lhs, ctx)
-            if writer is None or op != "=":
-                self.err(ctx, f"assignment to self.{lhs[2]}: no setter in the type table")
+            if writer is None:
+                self.err(ctx, f"assignment to {ctx.state_var}.{lhs[2]}: no setter in the type table")
             ft = parse_type_src(sp["fields"][lhs[2]][-1])
-            return self.ex(rhs, ctx, lambda v, vt: writer(v, rest()), ft)
+            src = rhs if op == "=" else ("binary", op[:-1], lhs, rhs)
+            return self.ex(src, ctx, lambda v, vt: writer(v, rest()), ft)
         if lhs[0] == "path" and len(lhs[1]) == 1 and lhs[1][0] in ctx.mut:
             name = lhs[1][0]
             cq, t = ctx.vars[name]
@@ -1372,24 +1564,28 @@ class Translator:
 
     # ---- definitions
     def define_fn(self, what, self_type, coq_name, params, ret, body_ast, binds=(), allowed=(), as_expr=False, state=(),
-                  anyhow=None, err_coq=None, extra=(), allowed_stmts=(), state_fn=False):
+                  anyhow=None, err_coq=None, extra=(), allowed_stmts=(), state_fn=False, state_coq=None, state_var="self", mutable=()):
         """params: [(rust name, type)] (including self if wanted). Returns Sig.
         state: names of parameters that are updated in place (fields of `&mut self` read as locals); the
         definition then returns their final values (the Rust function must return ())."""
         ctx = Ctx(what, self_type, ret, binds, allowed)
         for n, t in list(params) + list(extra):
-            if strip(t) != t and t[0] == "refmut":
+            if self.dropped(t):
+                ctx.skipvars.add(n)      # a parameter of a type the model has no counterpart for (ctx, the byte stream)
+                continue
+            if strip(t) != t and t[0] == "refmut" and not (state_fn and n == state_var):
                 self.err(ctx, f"`&mut` parameter {n} is outside the subset")
             ctx.vars[n] = ("v_" + n, t)
-        for n in state:
+        for n in list(state) + list(mutable):
             ctx.mut.add(n)
         ctx.anyhow = dict(anyhow or {})
         ctx.allowed_stmts = list(allowed_stmts)
         is_res = strip(ret)[0] == "result"
         params = [(n, t) for n, t in params if not self.dropped(t)]
         if state_fn:
-            ctx.state = True
-            ctx.vars["self"] = ("s", ("named", self_type))
+            ctx.state = state_fn if isinstance(state_fn, str) else "h"
+            ctx.state_var = state_var
+            ctx.vars[state_var] = ("s", dict(params)[state_var] if state_var in dict(params) else ("named", self_type))
 
         def retk(v, t):
             if is_res:
@@ -1420,12 +1616,16 @@ class Translator:
             term = self.stmts(body_ast[1], 0, body_ast[2], ctx, retk, ret, True)
         eff = effectful(term) or is_res
         if state_fn:
-            args = " ".join(("(s : " + self.coq_type(t) + ")") if n == "self" else f"(v_{n} : {self.coq_type(t)})"
+            args = " ".join(("(s : " + (state_coq or self.coq_type(t)) + ")") if n == state_var else f"(v_{n} : {self.coq_type(t)})"
                             for n, t in list(params) + list(extra))
             rt = self.coq_type(strip(ret)[1]) if is_res else self.coq_type(ret)
-            head = f"Definition {coq_name} (chk : bool) {args} : hres {atom(rt)} :="
-            self.out.append((coq_name, head.replace("  ", " ") + "\n" + render(term, "h", 1) + "."))
-            return "h"
+            if ctx.state == "s":
+                st_coq = state_coq or self.coq_type(("named", self_type))
+                head = f"Definition {coq_name} (chk : bool) {args} : sres {atom(st_coq)} {atom(err_coq or 'unit')} {atom(rt)} :="
+            else:
+                head = f"Definition {coq_name} (chk : bool) {args} : hres {atom(rt)} :="
+            self.out.append((coq_name, head.replace("  ", " ") + "\n" + render(term, ctx.state, 1) + "."))
+            return ctx.state
         args = " ".join(f"(v_{n} : {self.coq_type(t)})" for n, t in list(params) + list(extra))
         if is_res:
             et = strip(ret)[2]
